@@ -1,4 +1,7 @@
+#[cfg(not(cached_verif))]
 use bloomfilter::Bloom;
+#[cfg(cached_verif)]
+use crate::verif_rt::sync::bloomfilter::Bloom;
 use log::debug;
 
 use crate::cache::types::{DoorKeeperCapacity, DoorKeeperFalsePositiveRate, KeyHash};
